@@ -184,7 +184,9 @@ func (m *Mesh) RealGraph() map[string]map[string]float64 {
 		}
 	}
 	for _, l := range m.Links {
-		if l.Cut || l.Silent || l.CostA != l.CostB {
+		// a link is one-shot: once either node has closed its session (rejection, idle time-out under load)
+		// the pipe is cut and nothing re-dials it, so it is no longer part of the real topology
+		if l.Cut || l.Silent || l.CostA != l.CostB || l.Pipe.Closed() {
 			continue
 		}
 		if _, ok := g[l.A]; !ok {
